@@ -61,6 +61,7 @@ func randReq(q *lib.Rng, src string) Op {
 		o.Io = q.Chance(1, 2)
 	case "coupleerr", "couplefb":
 		o.On = q.Bool()
+		o.Slow = src != "erroring" && q.Chance(1, 25)
 	case "gadd", "gdel":
 		m := q.Range(0, 3)
 		for i := 0; i < m; i++ {
@@ -71,6 +72,7 @@ func randReq(q *lib.Rng, src string) Op {
 		}
 	case "storeraw":
 		o.N = q.Pick([]int{1, 4, 10, 0, -5})
+		o.Io = q.Chance(1, 3)
 	case "mix":
 		o.Idx = [][]int{{}, {1}, {1, 3}, {0}, {2}, {-1}, {n + 1}, {1, n + 4}}[q.Intn(8)]
 		o.Nfrac = len(o.Idx)
@@ -140,6 +142,11 @@ func corpus() []Case {
 		{Source: "erroring", Seed: 25, Ops: []Op{st, {Op: "dying"}, {Op: "stopc"}}},
 		{Source: "erroring", Seed: 26, Ops: []Op{st, {Op: "dying"}, {Op: "storeraw", N: 4}}},
 		{Source: "erroring", Seed: 27, Ops: []Op{st, {Op: "dying"}, {Op: "wc", W: "stop"}, sp, st}},
+		// a handler that lasts 1.3 s (its report to clients blocks) while blocks keep coming: nothing may overlap
+		{Source: "triangle", Seed: 28, Ops: []Op{st, {Op: "coupleerr", Slow: true}, trig(0), sp}},
+		// the temporary file of StoreRawDataBlock cannot be created
+		{Source: "triangle", Seed: 29, Ops: []Op{st, {Op: "storeraw", N: 4, Io: true}, trig(1), {Op: "storeraw", N: 4}, sp}},
+		{Source: "triangle", Seed: 30, Ops: []Op{{Op: "storeraw", N: 4, Io: true}, st, {Op: "storeraw", N: 0, Io: true}, {Op: "storeraw", N: 2, Io: true}, {Op: "stopc"}, sp}},
 		// restart on the same server
 		{Source: "triangle", Seed: 14, Ops: []Op{st, trig(1), sp, trig(1), st, st, trig(1), sp, sp}},
 	}
